@@ -30,6 +30,9 @@ pub enum POp {
     /// updates `key` of map lane `item` (3 or 4). Values are unique and >= DIRECT_MIN, so the trigger can be
     /// recognised in the trace (it has no `Top` marker: the lane's own handlers are the top level).
     Direct { item: i32, key: i32, value: i32 },
+    /// `@drop(n)` / `@take(n)` sent straight to map lane `item` (3 or 4): every entry it removes is a state change of
+    /// its own (on_remove with the true previous value and the map after that removal).
+    DirectDrop { item: i32, n: u32, take: bool },
 }
 
 pub const DIRECT_MIN: i32 = 5000;
@@ -236,6 +239,9 @@ pub fn generate(seed: u64, _tier: Tier) -> HScenario {
                 let item = *xr.pick(&[0i32, 2, 3, 4]);
                 ops.push(POp::Direct { item, key: xr.range_i(0, key_pool as i64 - 1) as i32, value: next_direct });
             }
+            if xr.below(1000) < direct_pm / 2 {
+                ops.push(POp::DirectDrop { item: *xr.pick(&[3i32, 4]), n: xr.range(0, key_pool as u64 + 1) as u32, take: xr.chance(1, 2) });
+            }
             next_id += 1;
             ops.push(POp::Send { id: next_id, prog: gen_prog(&mut rng, &mut a, &cfg) });
         }
@@ -269,6 +275,10 @@ fn bound_cost(sc: &mut HScenario) {
                 }
                 if let POp::Direct { item, value, .. } = op {
                     worst = worst.max(static_cost(&t, &Prog::Set { item: *item, value: *value }));
+                }
+                if let POp::DirectDrop { item, .. } = op {
+                    // At most key_pool (<= 3) removals.
+                    worst = worst.max(3 * static_cost(&t, &Prog::Remove { item: *item, key: 0 }));
                 }
             }
         }
